@@ -107,6 +107,38 @@ def findChild (E : LinkEnv) (asCtx : Bool) (own : Kind → Bool) (pg : Nat) (e :
     | some r => some ⟨r.info.id, r.info.id, true⟩
     | none => if selfChild asCtx k e.kids && E.nm e.info.id = n then some ⟨e.info.id, pg, false⟩ else none
 
+/-! ### reading the probe rows of the link lookup (round 5)
+
+`find_child` and `Project.find` are run on stubs by the translator, one case per list / entity word; the functions
+below say what the link model assumes of each kind of case. -/
+
+/-- `FortranBase.find_child`: a bare name is found in every list and single-object attribute `children` knows
+    (the first list wins), an entity word selects the list `SUBLINK_TYPES` names, unknown / inapplicable words raise -/
+def findChildRowOk (r : String × String × String × String) : Bool :=
+  let k := r.1
+  let out := r.2.2.2
+  if k == "bare-list" || k == "bare-single" || k == "entity" || k == "bare-first-list-wins" then out == "found"
+  else if k == "bare-not-found" then out == "None"
+  else if k == "entity-unknown-word" || k == "entity-list-missing" then out == "ValueError"
+  else false
+
+/-- `Project.find`: a bare name is found in every list `LINK_TYPES` names (the first list wins, bound procedures of
+    external projects are skipped), an entity word selects its list, an unknown word raises, a child is looked up by
+    the hit's own `find_child` -/
+def projectFindRowOk (r : String × String × String × String) : Bool :=
+  let k := r.1
+  let out := r.2.2.2
+  if k == "bare-list" || k == "entity" || k == "bare-first-list-wins" || k == "bare-external-bound-procedure-skipped" then
+    out == "found"
+  else if k == "bare-not-found" || k == "child-parent-not-found" then out == "None"
+  else if k == "entity-unknown-word" then out == "ValueError"
+  else if k == "child-asks-the-hit" then out == "found:('kid', 'variable')"
+  else false
+
+/-- the rows of one kind: (list or word, list) -/
+def probeRowsOf (k : String) (rows : List (String × String × String × String)) : List (String × String) :=
+  (rows.filter (fun r => r.1 == k)).map (fun r => (r.2.1, r.2.2.1))
+
 /-! ### `Project.find`: the page lists of the project, by list name -/
 
 /-- the project list a program unit is kept in -/
